@@ -27,7 +27,7 @@
 (***************************************************************************)
 EXTENDS History, Json, IOUtils
 
-Events == JsonDeserialize(IOEnv.HIST_FILE)
+Events == TLCEval(JsonDeserialize(IOEnv.HIST_FILE))
 
 TProc == {Events[i].proc : i \in 1..Len(Events)}
 TSeed == {Events[i].seed : i \in 1..Len(Events)}
@@ -52,14 +52,22 @@ TNext ==
      /\ wtext'  = IF a = "Generate" THEN First(wtext, e.sigkey, l) ELSE wtext
      /\ wname'  = IF a = "Name" THEN First(wname, e.reqkey, l) ELSE wname
      /\ wklass' = IF a = "Name" /\ e.hasclass THEN First(wklass, e.modname, l) ELSE wklass
-     /\ (rejText' = rejText \/ PrintT(<<"VIOL", l, "Functional", wtext[e.sigkey]>>))
-     /\ (rejName' = rejName \/ PrintT(<<"VIOL", l, "Stable", wname[e.reqkey]>>))
-     /\ (rejKlass' = rejKlass \/ PrintT(<<"VIOL", l, "Separating", wklass[e.modname]>>))
-     /\ (rejObjs' = rejObjs \/ PrintT(<<"VIOL", l, "DistinctObjects", l>>))
-     /\ (rejIdent' = rejIdent \/ PrintT(<<"VIOL", l, "ValidIdentifiers", l>>))
-     /\ (a \in {"Spawn", "Exit"} \/ cnt'[p] = [mesh |-> e.cnt.mesh, coefficient |-> e.cnt.coefficient,
-                                             constant |-> e.cnt.constant]
-          \/ PrintT(<<"DRIFT", l>>))
+     \* verdicts (IF, not \/: TLC would take both disjuncts of an action-level disjunction)
+     /\ IF a = "Generate" /\ ~Accepts(text, e.sigkey, e.sha)
+          THEN PrintT(<<"VIOL", l, "Functional", wtext[e.sigkey]>>) ELSE TRUE
+     /\ IF a = "Name" /\ ~Accepts(name, e.reqkey, <<e.modname, e.objnames>>)
+          THEN PrintT(<<"VIOL", l, "Stable", wname[e.reqkey]>>) ELSE TRUE
+     /\ IF a = "Name" /\ e.hasclass /\ ~Accepts(klass, e.modname, e.klass)
+          THEN PrintT(<<"VIOL", l, "Separating", wklass[e.modname]>>) ELSE TRUE
+     /\ IF a = "Name" /\ ~(Distinct(e.objnames) /\ Distinct(e.defs))
+          THEN PrintT(<<"VIOL", l, "DistinctObjects", l>>) ELSE TRUE
+     /\ IF a = "Name" /\ ~(\A i \in DOMAIN e.idc : ValidIdent(e.idc[i]))
+          THEN PrintT(<<"VIOL", l, "ValidIdentifiers", l>>) ELSE TRUE
+     \* ... and History's own rejection sets say the same
+     /\ IF a = "Generate" /\ ~Accepts(text, e.sigkey, e.sha) THEN e.sigkey \in rejText' ELSE rejText' = rejText
+     /\ IF a \in {"Spawn", "Exit"} THEN TRUE
+        ELSE IF cnt'[p] = [mesh |-> e.cnt.mesh, coefficient |-> e.cnt.coefficient, constant |-> e.cnt.constant]
+             THEN TRUE ELSE PrintT(<<"DRIFT", l>>)
   /\ l' = l + 1
 
 TSpec == TInit /\ [][TNext]_tvars
